@@ -296,6 +296,18 @@ def http1Case (toks impl : List String) : String :=
   | _, ["lost"] => "D V lost"
   | _, _ => "E E bad-http1-case"
 
+/-! ### HTTP/2 through the real proxy core: same case shape as HTTP/1; no rewriting rule is needed -/
+def http2Case (toks impl : List String) : String :=
+  let fmt (ok : Bool) := s!"{if ok then "A" else "D"} {if ok then "S" else "V"} same"
+  match toks, impl with
+  | ["req", method, target, hdrs, body], [gm, gt, gh, gb] =>
+    fmt (Http1Msg.same { start := method ++ " " ++ target, headers := hdrList hdrs, body := body }
+                       { start := gm ++ " " ++ gt, headers := hdrList gh, body := gb })
+  | ["resp", _, status, hdrs, body], [gs, gh, gb] =>
+    fmt (Http1Msg.same { start := status, headers := hdrList hdrs, body := body } { start := gs, headers := hdrList gh, body := gb })
+  | _, ["lost"] => "D V lost"
+  | _, _ => "E E bad-http2-case"
+
 def run (caseToks impl : List String) : String :=
   match caseToks with
   | ["bolt", id, ops, inp] => boltCase false id ops inp impl
@@ -307,6 +319,7 @@ def run (caseToks impl : List String) : String :=
   | ["uri", t, rw, pv, po, qs, un, fh, ru] => uriCase t rw pv po qs un fh ru impl
   | ["relay", scen, cs, ss, ex] => relayCase scen cs ss ex impl
   | "http1" :: r => http1Case r impl
+  | "http2" :: r => http2Case r impl
   | _ => "E E unknown-kind"
 
 end MosnVerif.Drive.C01
